@@ -420,7 +420,7 @@ def inherit(ctx, vb):
                 bad_.append(short(c_['path']) + ' on the parameter')
         okp = tested and not bad_
         detp = 'decided by Some/None of the parameter: %s; other tests on it: %s' % (tested, bad_)
-    ctx.ob(['C06', 'C04', 'C14'], 'R-GUARD', 'VB|own-block-iff-declared', okp,
+    ctx.ob(['C06', 'C04', 'C14', 'C01'], 'R-GUARD', 'VB|own-block-iff-declared', okp,
            'whether a type has its own vftable is decided by the presence of a vftable block only, not by its contents: %s' % detp, where)
     # D3 (C14-D4): the generated vftable item is registered on every successful own-block path
     ai = [c for c in vb.calls(lambda r: r['path'] and r['path'].endswith('SemanticState::add_item'))]
@@ -515,7 +515,7 @@ def vtype(ctx):
     okp = is_call(strip(idf['path']), 'ItemPath::join') and find_calls(idf['path'], 'ItemPath::parent') and fs is not None and 'Vftable' in fs and find_calls(idf['path'], 'ItemPath::last')
     cat = idf['category'][1].endswith('ItemCategory::Defined')
     vis = strip(idf['visibility'])[0] == 'arg'
-    ctx.ob(['C14', 'C17', 'C04'], 'R-SLP', 'VBT|item', bool(flags and okp and cat and vis),
+    ctx.ob(['C14', 'C17', 'C04', 'C13'], 'R-SLP', 'VBT|item', bool(flags and okp and cat and vis),
            'the generated item is `<parent>::<Name>Vftable`, Defined (so it is emitted), with the owning type\'s visibility and no marker attributes', where)
     if f2r is None:
         return
